@@ -386,6 +386,26 @@ func changeEndorsements(ctx context.Context, cops ChangeOps, endorsement *epb.VM
 	return certPath, nil
 }
 
+// dryRunOps is the ChangeOps a dry run works on. There is no workspace behind it: every file is
+// absent, writes and mode changes are only reported, and nothing can be committed.
+type dryRunOps struct{}
+
+var errDryRunNotFound = errors.New("dry run: no workspace to read from")
+
+func (dryRunOps) WriteOrCreateFiles(ctx context.Context, files ...*File) error {
+	for _, f := range files {
+		output.Infof(ctx, "dry run: would write %q (%d bytes)", f.Path, len(f.Contents))
+	}
+	return nil
+}
+func (dryRunOps) ReadFile(context.Context, string) ([]byte, error) { return nil, errDryRunNotFound }
+func (dryRunOps) SetBinaryWritable(context.Context, string) error  { return nil }
+func (dryRunOps) IsNotFound(err error) bool                        { return errors.Is(err, errDryRunNotFound) }
+func (dryRunOps) Destroy()                                         {}
+func (dryRunOps) TryCommit(context.Context) (any, error) {
+	return nil, errors.New("dry run: nothing to commit")
+}
+
 // Creates commit for extending the endorsement manifest and writing out the serialized endorsement
 // and attempts to submit. Submit may fail, thus "try".
 func tryChange(ctx context.Context, change func(context.Context, ChangeOps) (string, error)) error {
@@ -393,7 +413,8 @@ func tryChange(ctx context.Context, change func(context.Context, ChangeOps) (str
 	if err != nil {
 		return err
 	}
-	var cops ChangeOps
+	// A dry run creates no workspace; the change function still runs, against ops that touch nothing.
+	var cops ChangeOps = dryRunOps{}
 	if !ec.DryRun {
 		cops, err = ec.VCS.GetChangeOps(ctx)
 		if err != nil {
